@@ -17,6 +17,12 @@
 (* also after a rejection), Energy0, then L x (HalfKick, Drift, GradEval,        *)
 (* HalfKick), Energy1, Accept (ln u <= H0 - H1), Select (proposal or the         *)
 (* untouched previous position, never a blend).                                  *)
+(*                                                                              *)
+(* E and L are the values of the sampler's PUBLIC fields `step_size` and         *)
+(* `n_leapfrog` at the moment the step is taken (assigning them is the only way  *)
+(* to re-tune a sampler): both half-kicks and the drift use the same eps.  The   *)
+(* replay therefore runs every second behaviour on a sampler constructed with    *)
+(* other values (4 eps, L + 2) and re-tuned by assignment before its first step. *)
 EXTENDS Integers, Sequences
 
 CONSTANTS A, E, L, K, Dim,
